@@ -161,8 +161,9 @@ func oneConn(run *verdict.Run, be *rig.Backend, px *rig.Proxy, clock *int64, ci 
 		if s == fillAt {
 			// the server must have opened every earlier stream (its request is at the gated backend) before
 			// the last free slots are taken, otherwise the limit is never reached
+			dl := time.Now().Add(60 * time.Second)
 			for _, q := range reqs {
-				be.Wait(q.tag, 60*time.Second)
+				be.Wait(q.tag, max(time.Until(dl), time.Millisecond))
 			}
 		}
 		sid := c.Next
@@ -218,13 +219,31 @@ func oneConn(run *verdict.Run, be *rig.Backend, px *rig.Proxy, clock *int64, ci 
 	}
 	close(relCh)
 	relWG.Wait()
+	// every gate is open: within one (generous) bound for the whole connection each request must have been
+	// answered or refused. A legal request that is never answered is reported - the fingerprint is read while
+	// later frames of the same client are recorded, and a lock taken in the wrong order shows up exactly here
+	dl := time.Now().Add(60 * time.Second)
+	unanswered := 0
+	var firstUnanswered *reqInfo
 	for _, q := range reqs {
-		if resp, ok := c.Peer.WaitResponse(q.sid, 30*time.Second); !ok || resp.Reset {
+		resp, ok := c.Peer.WaitResponse(q.sid, max(time.Until(dl), time.Millisecond))
+		if !ok || resp.Reset {
 			run.Add("responses_missing", 1)
 			if ok && resp.ResetCode == http2.ErrCodeRefusedStream {
 				run.Add("streams_refused_beyond_the_limit", 1)
 			}
 		}
+		if !ok && !c.Peer.Ended() {
+			unanswered++
+			if firstUnanswered == nil {
+				firstUnanswered = q
+			}
+		}
+	}
+	if unanswered > 0 {
+		run.Violation("requests-never-answered-while-frames-kept-arriving", map[string]any{"conn": ci, "requests": len(reqs), "unanswered": unanswered, "first_unanswered_stream": firstUnanswered.sid, "at_backend": len(be.Records(firstUnanswered.tag))},
+			"conn %d: %d of %d legal requests had no response 60 s after every backend gate was opened (first: stream %d, seen by the backend %d time(s)); the connection is still open - handlers and the frame-recording serve loop are stuck", ci, unanswered, len(reqs), firstUnanswered.sid, len(be.Records(firstUnanswered.tag)))
+		return
 	}
 	gmu.Lock()
 	for _, q := range reqs {
